@@ -6,6 +6,8 @@ DAYUS = 86400000000
 
 def dt2us(t):
     """datetime -> microseconds since ordinal 0 at midnight (the model's time axis)"""
+    if hasattr(t, 'to_pydatetime'):
+        t = t.to_pydatetime()
     d = t - EPOCH
     return (d.days + 1) * DAYUS + d.seconds * 1000000 + d.microseconds
 
